@@ -49,6 +49,8 @@ var HistoricalSummaryType = ContainerType("HistoricalSummary", []FieldDef{
 type HistoricalSummaries []HistoricalSummary
 
 func (a *HistoricalSummaries) Deserialize(spec *common.Spec, dr *codec.DecodingReader) error {
+	// decode into a recycled object: drop what it holds (dr.List appends)
+	*a = (*a)[:0]
 	return dr.List(func() codec.Deserializable {
 		i := len(*a)
 		*a = append(*a, HistoricalSummary{})
